@@ -7,7 +7,7 @@
      nodes : ';'-separated, per node  <flags>/<dkey>/<succ>   flags: f foreign, m manifest, - none
      d0    : ','-separated node ids initially in the destination, or '-'
      trace : ','-separated event tokens or '-': the tokens of ml/c01_main.ml plus
-             XX.n  SX.n  PX.n.ref.stored  TX.n.set  MX.n.stored  MB.n  ME.n.(m|s|c)  QK  QX  CN
+             XX.n  SX.n  SR.n  PX.n.ref.stored  TX.n.set  MX.n.stored  MB.n  ME.n.(m|s|c)  QK  QX  CN
      api   : followed by m when the destination is a registry.Mounter and MountFrom is set
    output: <id> ACC ret=<1|0|-> tag=<n|-> dst=<ids> closed=<1|0>
              closed = the destination was link-closed after EVERY event of the trace (self-check of
@@ -43,6 +43,7 @@ let event_of tok =
   | ["RT"; b] -> Ev (Ret (bb b))
   | ["XX"; n] -> ExX (nn n)
   | ["SX"; n] -> SFX (nn n)
+  | ["SR"; n] -> SRX (nn n)
   | ["PX"; n; r; s] -> PuX (nn n, bb r, bb s)
   | ["TX"; n; s] -> TagX (nn n, bb s)
   | ["MX"; n; s] -> MtX (nn n, bb s)
